@@ -1,6 +1,7 @@
 import LyModel.XPath.LemmasParse
 import LyModel.XPath.LemmasLex
 import LyModel.XPath.LemmasLexRt
+import LyModel.XPath.LemmasParseA
 /-!
 # C08 — libyang's XPath tokenizer and parser against XPath 1.0 §3
 
@@ -113,6 +114,20 @@ example : (orExpr (fuelFor (rtoks sample).length) 0 (rtoks sample)).isSome = tru
 Stated on the token level for EVERY continuation of the token list (not only canonical ones); the fuel offsets are the extra
 calls the longer form needs.  `selfNode` / `parentNode` / `dosNode` are the tokens of `self::node()`, `parent::node()`,
 `descendant-or-self::node()`. -/
+
+/-- ABBREVIATED SYNTAX, whole expressions (token level): the tokens of the abbreviated text of `e` — `Render.atoks`: `child::`
+omitted, `@` for `attribute::`, `.` for `self::node()` and `..` for `parent::node()` without predicates, everywhere in `e`
+— are parsed back to `e`, i.e. to the tree in which every abbreviation is expanded. -/
+theorem parse_tokens_abbrev_roundtrip (e : Expr) (hw : wf e = true) (hh : height e ≤ XpConsts.maxBlockDepth) :
+    ∃ pushes, parseToks (atoks e) = some (e, pushes) :=
+  LemmasParseA.parseToks_rtoks e hw hh
+
+/-- non-vacuity: `/a/@b[. = ../c]` — its abbreviated tokens differ from the canonical ones -/
+private def sampleA : Expr :=
+  .path .root [.mk .child (.name none [0x61]) [], .mk .attribute (.name none [0x62])
+    [.bin .eq (.path .ctx [.mk .self .node []]) (.path .ctx [.mk .parent .node [], .mk .child (.name none [0x63]) []])]]
+example : wf sampleA = true ∧ height sampleA ≤ XpConsts.maxBlockDepth ∧ (atoks sampleA).length = 12 ∧ (rtoks sampleA).length = 25 := by
+  decide
 
 def stepToks (ax : Axis) : List PT := [(.axisname, axisBytes ax), tDcolon, (.nodetype, [0x6e, 0x6f, 0x64, 0x65]), tPar1, tPar2]
 
